@@ -29,11 +29,11 @@
 
    The parameter [fx] selects between the code as pinned upstream ([fx = false]) and the code
    of /repo after the C04 fix commit ([fx = true], what the correspondence runs against):
-   validateDelete compared the start offset with the END pointer's length (finding F16),
+   validateDelete compared the start offset with the END pointer's length (finding F30),
    calculateEndOffset snapped to the lower stamp bound when both the domain start and the
-   target are inexact (F17), calculateStartOffset snapped to the lower stamp bound (+1) when
-   only the domain start is inexact (F18) and asked for Stamp(start, -1) when the target is
-   the domain's first sample (F19).  The [fx = false] branches are kept for the refutation
+   target are inexact (F31), calculateStartOffset snapped to the lower stamp bound (+1) when
+   only the domain start is inexact (F32) and asked for Stamp(start, -1) when the target is
+   the domain's first sample (F33).  The [fx = false] branches are kept for the refutation
    lemmas of DeleteRefuted.v.
 
    Interface assumptions (validated on every run by the correspondence, not proved here):
